@@ -138,6 +138,47 @@ def f1(facts, tier):
         else:
             trace = " ".join(s[0] + (":" + str(s[1]) if len(s) > 1 and isinstance(s[1], str) else "") for s in w)
             yield ob(["C05"], "F1", k, "violation", where(f), f"load_impl has an accepting path that reaches the payload without the {k} check: [{trace}]")
+    # the magic comparison is a whole-value (in)equality against a literal of the full header length, equal to what save_impl writes
+    wf = facts.fns.get("savefile::Serializer<'a, W>::save_impl")
+    written = None
+    if wf is not None:
+        anw = Analyzer(facts, wire.wire_classifier)
+        lw = wire.finalize(anw.accept(anw.function(wf, {})))
+        for sym in rx.symbols(lw):
+            if isinstance(sym, tuple) and sym[0] == "A" and sym[2]:
+                written = tuple(sym[2])
+    found = None
+    for x in walk(f["body"]):
+        if x.get("k") == "If":
+            arrs = set()
+            for y in walk(x["c"]):
+                if y.get("k") == "Var" and y.get("ty", "").replace("&", "").strip().startswith("[u8; 9]"):
+                    arrs.add(y["v"])
+            if not arrs:
+                continue
+            c = peel_block(peel(x["c"]))
+            while c.get("k") == "Un" and c.get("op") == "Not":
+                c = peel_block(peel(c["e"]))
+            is_eq = (c.get("k") == "Bin" and c["op"] in ("Ne", "Eq")) or \
+                    (c.get("k") == "Call" and callee(c) in ("core::cmp::PartialEq::ne", "core::cmp::PartialEq::eq"))
+            lits = []
+            anv = Analyzer(facts, wire.wire_classifier)
+            for y in walk(x["c"]):
+                v = anv.val(y, {"$guards": {}, "$tsub": {}})
+                if v and v[0] == "bytes":
+                    lits.append(tuple(v[1]))
+            found = (is_eq, lits)
+    if found is None:
+        yield ob(["C05"], "F1", "magic-literal", "violation", where(f), "no comparison of the 9 header bytes found in load_impl")
+    else:
+        is_eq, lits = found
+        full = [l for l in lits if len(l) == 9]
+        ok = is_eq and bool(full) and (written is None or full[0] == written)
+        status = "pass" if ok else ("undecided" if (is_eq and not lits) else "violation")
+        yield ob(["C05"], "F1", "magic-literal", status, where(f),
+                 "the 9 header bytes are compared as a whole with the 9-byte magic that save_impl writes" if ok else
+                 f"the header comparison is not an (in)equality of all 9 bytes with the written magic "
+                 f"(equality test: {is_eq}; literal lengths compared: {[len(l) for l in lits]}): files with a damaged magic are accepted")
     # the rejecting branches really reject: no accepted word goes through a REJECT-BRANCH
     rej = [s for s in rx.symbols(acc) if isinstance(s, tuple) and s[0] == "REJECT-BRANCH"]
     yield ob(["C05"], "F1", "rejecting-branches", "violation" if rej else "pass", where(f),
